@@ -508,6 +508,8 @@ def named_layer(rep, tier):
         ('alias-renamed', ({'P': point}, O({'from': R('P'), 'to': R('P')})), ({'Q': point}, O({'from': R('Q'), 'to': R('Q')}))),
         ('alias-named-like-an-Object-prototype-member', ({'toString': point, 'constructor': O({'q': R('toString')})}, O({'p': R('constructor'), 'r': R('toString')})),
                                                         ({'P': point, 'Q': O({'q': R('P')})}, O({'p': R('Q'), 'r': R('P')}))),
+        ('recursive-through-alias', ({'L': O({'v': N, 'next': U(R('LA'), NUL)}), 'LA': R('L')}, R('L')), ({'L': O({'v': N, 'next': U(R('L'), NUL)})}, R('L'))),
+        ('recursive-children-alias', ({'T': O({'v': N, 'kids': R('Kids')}), 'Kids': {'t': 'array', 'x': R('T')}}, R('T')), ({'T': O({'v': N, 'kids': {'t': 'array', 'x': R('T')}})}, R('T'))),
         ('alias-of-alias', ({'P': point, 'PP': R('P')}, O({'p': R('PP')})), ({'P': point}, O({'p': R('P')}))),
         ('alias-in-array-and-tuple', ({'P': point}, {'t': 'tuple', 'prefix': [R('P')], 'rest': R('P')}), ({}, {'t': 'tuple', 'prefix': [point], 'rest': point})),
         ('property-order', ({}, O({'a': S, 'b': N})), ({}, O({'b': N, 'a': S}))),
@@ -537,10 +539,23 @@ def named_layer(rep, tier):
             rep.violation(f'c13:named:{name}:throws', f'hash()/hash256() of a system of named types throws: {ra.get("error") or rb.get("error")}', {'cmd': 'hash-named', 'systems': [a, b]})
             continue
         # the 32-bit clause of the statement does not promise independence of the NAMES of recursive types (hash256's clause does)
-        for which in (('hash256',) if name in ('recursive-renamed', 'mutual-renamed') else ('hash', 'hash256')):
+        # ... and hash256 numbers the open named types along the path, so an alias ON a cycle changes it (known finding same-ir-recursive): hash() only there
+        for which in (('hash256',) if name in ('recursive-renamed', 'mutual-renamed') else ('hash',) if name in ('recursive-through-alias', 'recursive-children-alias') else ('hash', 'hash256')):
             if ra[which] != rb[which]:
                 rep.violation(f'c13:{which}:named:{name}', f'{which}() differs between two spellings that differ only in {name.replace("-", " ")}: {json.dumps(a)[:200]} -> {ra[which]} vs '
                               f'{json.dumps(b)[:200]} -> {rb[which]}', {'cmd': 'hash-named', 'systems': [a, b], 'result': [ra, rb]})
+    # late binding (createNamedType(name, unknown) ... overrideNamedType(name, real), the documented way to build recursive runtime types):
+    # the parser is asked for its hashes BEFORE the named types get their real definitions and again afterwards; the second answers must be
+    # those of a parser built after the fact (a digest memoised on the parser goes stale)
+    for sysd in systems:
+        r = res[sysd['name']]
+        if 'error' in r or 'late' not in r:
+            continue
+        for which in ('hash', 'hash256'):
+            if r['late'][which] != r[which]:
+                rep.violation(f'c13:{which}:stale-after-late-binding', f'{which}() asked before and after the named types were bound returns {r["late"][which]} the second time, a parser built '
+                              f'afterwards {r[which]}: {json.dumps(sysd)[:240]}', {'cmd': 'hash-named', 'systems': [sysd], 'result': [r]})
+                break
     for name, a, b in differ:
         ra, rb = res[name + '/a'], res[name + '/b']
         if 'error' in ra or 'error' in rb:
